@@ -79,6 +79,11 @@ SHAPES = {
     "Branch": "H.Branch(H.Count(), H.Maximize({X}), H.Bag({C}, 'S'))",
     "Fraction>IrregularlyBin": "H.Fraction({B}, H.IrregularlyBin([0.0, 1.0], {X}))",
     "CentrallyBin>Count": "H.CentrallyBin([0.0, 2.0], {X})",
+    "Select>Label": "H.Select({B}, H.Label(a=H.Sum({X}), b=H.Sum({Y})))",
+    "Bin.nanflow=Branch": "H.Bin(2, 0.0, 2.0, {X}, H.Count(), H.Count(), H.Count(), H.Branch(H.Count(), H.Sum({Y})))",
+    "Fraction>Index": "H.Fraction({B}, H.Index(H.Sum({X}), H.Sum({Y})))",
+    "Categorize>UntypedLabel": "H.Categorize({C}, H.UntypedLabel(s=H.Sum({X}), n=H.Count()))",
+    "SparselyBin>Categorize": "H.SparselyBin(1.0, {X}, H.Categorize({C}, H.Count()))",
 }
 
 
@@ -151,12 +156,14 @@ if not jeq(J(c), J(h)): return "clone-and-original-diverge-after-vectorised-fill
 
 
 def harnesses(tier):
-    out = []
+    import gen_extra_np
+    out = [gen_extra_np.clone_probes()]
     for shape in SHAPES:
-        kinds = list(KINDS) if tier == "thorough" or shape in ("Sum", "Bin>Average", "Select>Bin", "Categorize>Sum") else ["lambda", "string-dict", "cached", "factory"]
+        newshape = shape in ("Select>Label", "Bin.nanflow=Branch", "Fraction>Index", "Categorize>UntypedLabel", "SparselyBin>Categorize")
+        kinds = list(KINDS) if tier == "thorough" or shape in ("Sum", "Bin>Average", "Select>Bin", "Categorize>Sum") else (["lambda", "named"] if newshape else ["lambda", "string-dict", "cached", "factory"])
         for kind in kinds:
             out.append(roundtrip(shape, kind, timeout=60 if tier == "quick" else 240))
-    for shape in SHAPES:
+    for shape in list(SHAPES)[:10] if tier == "quick" else SHAPES:
         for kind in (["lambda", "named"] if tier == "quick" else ["lambda", "def", "named", "globals"]):
             out.append(vectorised(shape, kind, timeout=90 if tier == "quick" else 240))
     return out
